@@ -849,7 +849,7 @@ def codec_cases(draw, tier):
     if kind == "inv":
         counts = [st.sampled_from([0, 1, 2, 6, 252, 253, 254, 300]), st.integers(0, 40)]
         n = draw(st.one_of(*counts))
-        if not q and draw(st.integers(0, 19)) == 0:
+        if not q and draw(st.sampled_from(range(60))) == 0:
             n = draw(st.sampled_from([65535, 65536]))
         types = draw(st.one_of(st.just([0, 1, 2, 3, 4, 5]), st.lists(st.integers(0, 5), min_size=1, max_size=6)))
         case = {"codec": "inv", "n": n, "seed": seed, "types": types}
